@@ -90,7 +90,10 @@ const SAMPLES: &[&str] = &[
   "a := [1 2; 3 4]\nb := a ** a", "x := {y * 2 | y <- {1,2,3}}", "x := [y * 2 | y <- [1 2 3]]", "<color> := :red<f64> | :green<f64> | :blue", "x := 5\ny := x? | 1 => 10 | v, v > 3 => 20 | * => 0.",
   "f(n<u64>) => <u64>\n  ├ 0u64 => 1u64\n  └ n => n * f(n - 1u64).\nf(3u64)", "(a, b) := (1, 2)", "<color> := :red<f64> | :green<f64> | :blue\nsrc<color> := :green(2)\nsrc", "x := [1 2 3]\nx[2]", "~x := [1 2 3]\nx[2] = 9", "~x := [1 2 3]\nx[1..=2] += 1",
   "x := {1,2} ∪ {3}", "x := 2 ∈ {1,2}", "x := {\"k\": 1}", "x := 1.5", "x := .5", "x := 1_000", "x := \"\"", "x := [\"a\" \"b\"]", "x := [true false]", "x<[u8]> := [1 2]", "x<[f64]:2,2> := [1 2 3 4]",
-  "x := {:}", "x<{a<u8>,b<string>}> := {a: 1, b: \"s\"}", "x<|a<u8> b<f64>|> := |a<u8> b<f64>| 1 2.0 |"];
+  "x := {:}", "x<{a<u8>,b<string>}> := {a: 1, b: \"s\"}", "x<|a<u8> b<f64>|> := |a<u8> b<f64>| 1 2.0 |",
+  // witnesses of repaired formatter defects (known_findings.json, fixed): swizzle dots, comma and space in subscripts and tuples,
+  // `!` for not, the cross-product sign, strict not-equal
+  "x := a.b,c", "x := q[a.b, c]", "x := (a.b, c)", "x := {!2: 1}", "x := [1 2 3] ⨯ [4 5 6]", "x := 5 ≤ 7 ⨯ 3", "x := 2 =!= 3", "x := 2 =:= 3"];
 
 pub fn generate(seed: u64, thorough: bool, sink: &mut Sink) -> Vec<String> {
   let mut out: Vec<String> = vec![];
